@@ -1098,6 +1098,27 @@ func main() {
 			c.Span = groupSpanProblem(c.Obs, spans, c.Alone)
 			runIt(&c, e)
 			emit(c, true)
+			if len(f.groups) < 2 || f.what == "generated" {
+				continue
+			}
+			// the same groups as one Load each on ONE engine: what a Load checks does not depend on the Loads before it either
+			var srcs, parts []string
+			for gi, g := range f.groups {
+				one, _ := renderGroupsFrom([]GroupDesc{g}, gi+1)
+				srcs = append(srcs, one)
+				parts = append(parts, fmt.Sprintf("// ==== Load #%d on the same engine\n%s", gi+1, one))
+			}
+			src = strings.Join(parts, "\n")
+			if !begin("group", src) {
+				continue
+			}
+			obs := runHistory(func() *ruleguard.LoadContext { return &ruleguard.LoadContext{Fset: t.Fset} }, srcs, 5*time.Second)
+			last := len(obs) - 1
+			h := Case{Stream: "group", ID: id, Src: src, What: f.what + " (every group a Load of its own on one engine; the answer to the last one)", Obs: obs[last]}
+			if last == len(f.groups)-1 {
+				h.Groups, h.Alone = f.groups[last:], c.Alone[last:]
+			}
+			emit(h, true)
 		}
 	}
 	// ---- hist
